@@ -213,6 +213,49 @@ func c18DeferredBody(d *ssa.Defer, pkg map[*ssa.Function]bool) *ssa.Function {
 	return nil
 }
 
+// c18GroupFns lists the functions that implement a flight group: the methods
+// of typ with their closures, and the functions of the package they reach
+// through static calls (plain, deferred or spawned), closures and bound method
+// values. The methods are not required to do the work themselves: a helper, or
+// a method of a small state struct the method's locals were moved into, that
+// runs on behalf of a group method is part of the group by what it does.
+func c18GroupFns(p *core.Prog, inPkg map[*ssa.Function]bool, typ string) []*ssa.Function {
+	var out []*ssa.Function
+	seen := map[*ssa.Function]bool{}
+	var add func(f *ssa.Function)
+	add = func(f *ssa.Function) {
+		if f == nil || seen[f] || f.Blocks == nil {
+			return
+		}
+		seen[f] = true
+		out = append(out, f)
+		for _, a := range f.AnonFuncs {
+			add(a)
+		}
+		for _, b := range f.Blocks {
+			for _, in := range b.Instrs {
+				switch x := in.(type) {
+				case *ssa.MakeClosure:
+					// a function literal made here (also by an inlined copy of a helper), or a bound
+					// method wrapper: the wrapper itself has no place in the package, its body's
+					// static callee is picked up by the scan of the wrapper
+					if fn, ok := x.Fn.(*ssa.Function); ok {
+						add(fn)
+					}
+				case ssa.CallInstruction:
+					if h := x.Common().StaticCallee(); h != nil && inPkg[h] {
+						add(h)
+					}
+				}
+			}
+		}
+	}
+	for _, m := range p.Methods(syncxPkg, typ) {
+		add(m)
+	}
+	return out
+}
+
 // c18Ret is one way a function returns result idx: the return instruction, or
 // (when the result is a φ in the return block) the jump that selects the value.
 type c18Ret struct {
@@ -451,10 +494,7 @@ func c18(r *core.Run) {
 	for _, g := range []group{{"flightGroup", "calls", "lock"}, {"lockedGroup", "m", "mu"}} {
 		g := g
 		tf := g.typ + "." + g.mapF
-		var fns []*ssa.Function
-		for _, m := range p.Methods(syncxPkg, g.typ) {
-			fns = append(fns, core.WithAnon(m)...)
-		}
+		fns := c18GroupFns(p, inPkg, g.typ)
 		isLookup := c18LookupOn(tf)
 		isUpdate := core.IsMapUpdateOn(tf)
 		isDelete := c18Builtin("delete", core.FieldLoad(tf))
@@ -548,7 +588,7 @@ func c18(r *core.Run) {
 					o.Fail(p.InstrPos(w), "%s publishes the call before WaitGroup.Add: a waiter can pass Wait before the call ran", core.FuncName(f))
 				}
 			}
-			if !o.Need(len(executors) > 0, "a method of "+g.typ+" calling the user function") {
+			if !o.Need(len(executors) > 0, "a method of "+g.typ+" (or a function it reaches) calling the user function") {
 				return
 			}
 			for f := range executors {
@@ -561,22 +601,34 @@ func c18(r *core.Run) {
 					}
 					continue
 				}
-				// inserted by a sibling helper: every caller inserts first
-				callers := 0
-				toF := c18StaticCallTo(map[*ssa.Function]bool{f: true})
-				for _, h := range fns {
-					cs := core.Instrs(h, toF)
-					if len(cs) == 0 {
-						continue
-					}
-					callers++
-					if w := core.Precedes(h, insertEvent, toF); w != nil {
+				// inserted by a sibling helper: on every call chain from the group's API down to f the key
+				// is inserted before the call (Do → createCall …; makeCall → run)
+				var insertedBefore func(f *ssa.Function, depth int)
+				insertedBefore = func(f *ssa.Function, depth int) {
+					callers := 0
+					toF := c18StaticCallTo(map[*ssa.Function]bool{f: true})
+					for _, h := range fns {
+						cs := core.Instrs(h, toF)
+						if len(cs) == 0 {
+							continue
+						}
+						callers++
+						w := core.Precedes(h, insertEvent, toF)
+						if w == nil {
+							continue
+						}
+						// h does not insert first: fine when h is itself an internal step all of whose callers do
+						if depth < 3 && h != f && h.Parent() == nil && !token.IsExported(h.Name()) && !c18UsedAsValue(all, h) {
+							insertedBefore(h, depth+1)
+							continue
+						}
 						o.Fail(p.InstrPos(w), "%s runs the user function (via %s) before the key is inserted", core.FuncName(h), core.FuncName(f))
 					}
+					if callers == 0 || c18UsedAsValue(all, f) {
+						o.Fail(p.Pos(f.Pos()), "%s runs the user function but its callers cannot be enumerated", core.FuncName(f))
+					}
 				}
-				if callers == 0 || c18UsedAsValue(all, f) {
-					o.Fail(p.Pos(f.Pos()), "%s runs the user function but its callers cannot be enumerated", core.FuncName(f))
-				}
+				insertedBefore(f, 0)
 			}
 			o.Site(n)
 		})
@@ -610,7 +662,7 @@ func c18(r *core.Run) {
 			return
 		}
 		r.Check("D2/K1/cleanup-on-every-exit/"+g.typ, "the call of the user function is dominated by deferred cleanup that, on every path (also when the user function panics), deletes the key and calls WaitGroup.Done", func(o *core.O) {
-			if !o.Need(len(executors) > 0, "a method of "+g.typ+" calling the user function") {
+			if !o.Need(len(executors) > 0, "a method of "+g.typ+" (or a function it reaches) calling the user function") {
 				return
 			}
 			n := 0
@@ -682,10 +734,7 @@ func c18(r *core.Run) {
 
 	r.Check("D2/K2/only-creator-executes/flightGroup", "createCall reports done=true exactly on the found outcome; Do/DoEx run the user function only when done is false, and DoEx reports fresh=false for a shared result and fresh=true for its own execution", func(o *core.O) {
 		tf := "flightGroup.calls"
-		var fns []*ssa.Function
-		for _, m := range p.Methods(syncxPkg, "flightGroup") {
-			fns = append(fns, core.WithAnon(m)...)
-		}
+		fns := c18GroupFns(p, inPkg, "flightGroup")
 		creators := map[*ssa.Function]bool{}
 		executors := map[*ssa.Function]bool{}
 		isBool := func(t types.Type) bool {
@@ -725,6 +774,20 @@ func c18(r *core.Run) {
 			}
 		}
 		isCreate := c18StaticCallTo(creators)
+		// a function that neither looks the key up nor creates the call but calls an executor executes
+		// (makeCall → run): the decision is taken by its caller
+		for changed := true; changed; {
+			changed = false
+			for _, f := range fns {
+				if executors[f] || creators[f] || f.Parent() != nil || len(core.Instrs(f, core.Or(isCreate, c18LookupOn(tf)))) > 0 {
+					continue
+				}
+				if len(core.Instrs(f, c18StaticCallTo(executors))) > 0 {
+					executors[f] = true
+					changed = true
+				}
+			}
+		}
 		// "the call was found in progress": the creator's done flag, or (creation inlined) the lookup's outcome
 		done := core.AnyOf(core.BoolVal(func(v ssa.Value) bool { return core.IsResult(v, 1, isCreate) }), c18Found(tf))
 		isExec := core.Or(c18StaticCallTo(executors), c18UserFnCall)
